@@ -380,6 +380,26 @@ fn main_check(ctx: &Ctx) -> Outcome {
     });
     out.push_part(json!({"part":"texts x representative styles","max_chars":n_text,"texts":texts.len(),"styles":reps.len()}));
 
+    // (A) every printable ASCII character (and TAB) alone, at the start of a line, inline and at the end, in four
+    //     styles: escaping must not depend on the character being in the text alphabet above.  (Other control
+    //     characters are outside the statement's domain: the delegated segmenter keeps them as text.)
+    {
+        let styles4 = [reps[0], reps[1], reps[4], reps[10]];
+        let chars: Vec<u8> = (0x20u8..0x7f).chain([0x09]).collect();
+        chars.par_iter().for_each(|&c| {
+            let c = c as char;
+            let mut local = vec![];
+            for t in [format!("{c}"), format!("{c}x"), format!("x{c}"), format!("x{c}y"), format!("x\n{c}y"), format!("{c}{c}"), format!("x\n{c}")] {
+                for st in &styles4 {
+                    let input = format!("{}{t}", st.sequence(false));
+                    acc.case("ascii", input.as_bytes(), || describe(input.as_bytes()), &mut local);
+                }
+            }
+            acc.flush(local);
+        });
+        out.push_part(json!({"part":"every printable ASCII character (and TAB) in 7 positions x 4 styles","characters":chars.len()}));
+    }
+
     // (D) documents of <= k segments
     let (k, d_styles, d_len) = if quick { (2usize, 8usize, 2usize) } else { (3, 6, 2) };
     let d_texts = texts_upto(d_len);
